@@ -147,7 +147,7 @@ func c06World() *ref.World {
 }
 
 func C06(rep *ev.Reporter, tier string) {
-	bud := NewBudget(50 * time.Second)
+	bud := NewBudget(150 * time.Second)
 	maxMax := uint64(5)
 	if tier == "thorough" {
 		bud = NewBudget(9 * time.Minute)
@@ -219,5 +219,129 @@ func C06(rep *ev.Reporter, tier string) {
 	}
 	RunFamily(rep, gen, 3000, bud, judge)
 	rep.Coverage["zero_listener_runs_compared"] = plainChecked
-	rep.Coverage["rule"] = "rule sets {never satisfied, fires n=1..3 times, loops forever (1 and 2 rules), Complete at firing n, action error at firing n, retract chain, mixed, failing condition} x MaxCycle 0..5 (thorough 0..8) x 1..4 listeners (+ a listener-free differential run) x every rule order per cycle. Oracle: the engine model followed along the observed trace decides, per cycle, whether the run must continue, fire, end with nil, with the limit error or with an action error; per-listener protocol automaton (consecutive numbering, each active rule exactly once, <=1 execution of a same-cycle candidate). Termination horizon is a callback count, not a clock. Non-trivial: a run that reaches the budget boundary with candidates left."
+	c06Nested(rep, sets, maxMax)
+	rep.Coverage["rule"] = "rule sets {never satisfied, fires n=1..3 times, loops forever (1 and 2 rules), Complete at firing n, action error at firing n, retract chain, mixed, failing condition} x MaxCycle 0..5 (thorough 0..8) x 1..4 listeners (+ a listener-free differential run) x every rule order per cycle. Oracle: the engine model followed along the observed trace decides, per cycle, whether the run must continue, fire, end with nil, with the limit error or with an action error; per-listener protocol automaton (consecutive numbering, each active rule exactly once, <=1 execution of a same-cycle candidate). Termination horizon is a callback count, not a clock. Non-trivial: a run that reaches the budget boundary with candidates left. Second family (overlapping runs on ONE engine value): for every outer program with a probe in an action or a condition x inner program x MaxCycle x probe invocation index j, the j-th probe invocation of the outer run starts a complete inner run (own instance, facts and data context) on the same *GruleEngine; both traces are judged by the same engine model and compared with the scenario run on two separate engine values."
+}
+
+// c06Nested: overlapping runs on one engine value, every nesting point enumerated.
+func c06Nested(rep *ev.Reporter, sets map[string]func() []*grl.Rule, maxMax uint64) {
+	type rs = []*grl.Rule
+	outers := map[string]func() rs{
+		"countA3": func() rs { return rs{grl.R("o1", nil, "F.I < 3", "F.I = F.I + 1", "F.Act(1)")} },
+		"loopA":   func() rs { return rs{grl.R("o1", nil, "F.I >= 0", "F.I2 = F.I2 + 1", "F.Act(1)")} },
+		"condC2":  func() rs { return rs{grl.R("o1", nil, "F.Chk(F.I) && F.I < 2", "F.I = F.I + 1")} },
+		"completeA": func() rs {
+			return rs{grl.R("inc", nil, "F.I >= 0", "F.I = F.I + 1", "F.Act(1)"), grl.R("done", grl.Sal(10), "F.I == 2", "Complete()", "F.Act(2)")}
+		},
+		"twoA": func() rs {
+			return rs{grl.R("a", grl.Sal(5), "F.I < 1", "F.I = F.I + 1", "F.Act(1)"), grl.R("b", nil, "F.I2 < 2 && F.Chk(F.I2)", "F.I2 = F.I2 + 1")}
+		},
+	}
+	inners := []string{"never", "count1", "count3", "loop", "completeAt1", "retractChain"}
+	var onames []string
+	for k := range outers {
+		onames = append(onames, k)
+	}
+	sort.Strings(onames)
+	type job struct {
+		outer, inner string
+		mc           uint64
+	}
+	var jobs []job
+	for _, o := range onames {
+		for _, in := range inners {
+			for mc := uint64(1); mc <= maxMax-1; mc++ {
+				jobs = append(jobs, job{o, in, mc})
+			}
+		}
+	}
+	var nRuns, nNest, nontrivial int64
+	ParallelEach(len(jobs), func(ji int) {
+		j := jobs[ji]
+		ob, err1 := hx.Build(hx.NewProgram(outers[j.outer](), grl.Style{}))
+		ib, err2 := hx.Build(hx.NewProgram(sets[j.inner](), grl.Style{}))
+		if err1 != nil || err2 != nil {
+			rep.Violation("harness:build-failed:c06nested", fmt.Sprint(err1, err2), nil)
+			return
+		}
+		oc := &Case{Rules: ob.Prog.Rules}
+		ic := &Case{Rules: ib.Prog.Rules}
+		// scenario(at, shared): outer run; its at-th probe invocation starts the inner run
+		scenario := func(at int, shared bool) (otr, itr *hx.Trace) {
+			se := hx.NewSharedEngine(j.mc, false)
+			ie := se
+			if !shared {
+				ie = hx.NewSharedEngine(j.mc, false)
+			}
+			ow := c06World()
+			otr = hx.Run(ob, ow, hx.RunOpts{Shared: se, OnProbe: func(kind string, id int64, n int) {
+				if n == at && itr == nil {
+					itr = hx.Run(ib, c06World(), hx.RunOpts{Shared: ie})
+				}
+			}})
+			return otr, itr
+		}
+		base, _ := scenario(0, true)
+		atomic.AddInt64(&nRuns, 1)
+		probes := 0
+		for _, e := range base.Events {
+			if strings.HasPrefix(e, "act:") || strings.HasPrefix(e, "chk:") {
+				probes++
+			}
+		}
+		for at := 1; at <= probes; at++ {
+			caseID := fmt.Sprintf("c06/nested/%s/%s/max%d/at%d", j.outer, j.inner, j.mc, at)
+			if rep.ReplayFilter != "" && rep.ReplayFilter != caseID {
+				continue
+			}
+			judgeOnce := func() (sig, what string) {
+				otr, itr := scenario(at, true)
+				rotr, ritr := scenario(at, false)
+				atomic.AddInt64(&nRuns, 4)
+				if itr == nil || ritr == nil {
+					return "", ""
+				}
+				for _, x := range []struct {
+					role string
+					c    *Case
+					tr   *hx.Trace
+				}{{"outer", oc, otr}, {"inner", ic, itr}} {
+					for _, v := range c06Judge(x.c, x.tr, nil) {
+						if v.Sig != "" {
+							return v.Sig + ":overlapping-runs-on-one-engine:" + x.role, fmt.Sprintf("%s run (the inner run was started by probe invocation %d of the outer run on the SAME engine value, MaxCycle=%d): %s\n  %s events: %s", x.role, at, j.mc, v.What, x.role, strings.Join(x.tr.Events, " "))
+						}
+					}
+				}
+				if a, b := strings.Join(otr.Events, " "), strings.Join(rotr.Events, " "); a != b {
+					return "C06:run-differs-when-engine-value-is-shared:outer", fmt.Sprintf("outer run with the inner run on the same engine: %s\n  with the inner run on another engine value: %s", a, b)
+				}
+				if a, b := strings.Join(itr.Events, " "), strings.Join(ritr.Events, " "); a != b {
+					return "C06:run-differs-when-engine-value-is-shared:inner", fmt.Sprintf("inner run on the engine value of the outer run: %s\n  on its own engine value: %s", a, b)
+				}
+				return "", ""
+			}
+			sig, what := judgeOnce()
+			atomic.AddInt64(&nNest, 1)
+			atomic.AddInt64(&nontrivial, 1)
+			if sig != "" {
+				if s2, _ := judgeOnce(); s2 != sig {
+					fmt.Printf("HARNESS-NONDETERMINISM property=C06 case=%s sig=%s\n", caseID, sig)
+					continue
+				}
+				rep.Violation(sig, what+"\n  case: "+caseID+"\n  outer grl: "+ob.Prog.Text+"\n  inner grl: "+ib.Prog.Text, map[string]interface{}{"case": caseID, "outer": ob.Prog.Text, "inner": ib.Prog.Text, "max_cycle": j.mc, "nest_at_probe": at})
+			}
+			if ji == 0 && at == 1 {
+				otr, itr := scenario(at, true)
+				rep.Sample(map[string]interface{}{"case": caseID, "outer": ob.Prog.Text, "inner": ib.Prog.Text, "outer_events": otr.Events, "inner_events": itr.Events})
+			}
+		}
+	})
+	rep.Coverage["nested_scenarios"] = nNest
+	rep.Coverage["nested_runs"] = nRuns
+	if v, ok := rep.Coverage["evaluations"].(int64); ok {
+		rep.Coverage["evaluations"] = v + nRuns
+	}
+	if v, ok := rep.Coverage["distinct_nontrivial"].(int64); ok {
+		rep.Coverage["distinct_nontrivial"] = v + nontrivial
+	}
 }
